@@ -146,7 +146,7 @@ func runStreamCrash(e *simcore.Env, tp *simcore.Tape) {
 	synctest.Test(e.T, func(*testing.T) {
 		knobDesc, knobRestore := simknobs.Draw(tp, "stream")
 		defer knobRestore()
-		e.Event("%s", knobDesc)
+		simknobs.Record(e, knobDesc)
 		s := wl.GenStreamSchema(tp, wl.SchemaOpts{MaxShards: 1})
 		repo := simmeta.New()
 		s.Install(repo)
